@@ -269,6 +269,21 @@ func c08(args []string) error {
 			if d := postMortem(v); d != nil {
 				line["diag"] = d
 			}
+			if kind == "good" {
+				// diagnosis: does R (still) verify this correctly made signature when asked again, and do the others?
+				if err := r.Auth.Verify(tm.ViewSignature, hotstuff.View(v).ToBytes()); err != nil {
+					d := []string{fmt.Sprintf("R cannot verify the correctly made view signature of replica %d for view %d: %v", s, v, err)}
+					for _, x := range nodes {
+						if x.ID != R {
+							d = append(d, fmt.Sprintf("verify@%d = %v", x.ID, x.Auth.Verify(tm.ViewSignature, hotstuff.View(v).ToBytes())))
+						}
+					}
+					if pk, ok := p.Key.Public().(interface{ ToBytes() []byte }); ok {
+						d = append(d, fmt.Sprintf("pubkey %d = %x sig = %x", s, pk.ToBytes(), tm.ViewSignature.ToBytes()))
+					}
+					line["diag2"] = d
+				}
+			}
 			collect(line, vc0)
 		}
 		r.Stop()
